@@ -396,47 +396,83 @@ def model_code(text):
     return out
 
 
+def frag_stmt(rng, depth):
+    """a statement of the proved fragment (never run: only the generated code is compared)"""
+    r = rng.random()
+    if depth <= 0 or r < 0.35:
+        r = rng.random()
+        if r < 0.6:
+            return ('assign', rng.choice(FRAG_VARS), frag_expr(rng, rng.randint(0, 3), rng.choice(['int', 'int', 'bool'])))
+        if r < 0.75:
+            e = [frag_expr(rng, rng.randint(0, 2)), rng.choice([('num', 0), ('var', 'g1'), frag_expr(rng, 1)])]
+            return ('call', 'put', e) if rng.random() < 0.5 else ('sys', 1, e)
+        if r < 0.85:
+            return ('return', frag_expr(rng, rng.randint(0, 2), rng.choice(['int', 'bool'])))
+        if r < 0.9:
+            return ('sys', 0, [frag_expr(rng, rng.randint(0, 2))])
+        if r < 0.95:
+            return ('stop',)
+        return ('skip',)
+    if r < 0.6:
+        t = frag_stmt(rng, depth - 1) if rng.random() < 0.8 else ('skip',)
+        e = frag_stmt(rng, depth - 1) if rng.random() < 0.6 else ('skip',)
+        return ('if', frag_expr(rng, rng.randint(0, 2), 'bool'), t, e)
+    if r < 0.75:
+        return ('while', frag_expr(rng, rng.randint(0, 2), 'bool'), frag_stmt(rng, depth - 1))
+    return ('seq', [frag_stmt(rng, depth - 1) for _ in range(rng.randint(1, 4))])
+
+
 def fragment_tie(ck, tools, scr, n):
-    """the extracted model (XConstProp.front, then XCodegenExpr.cg with the frame symbols of the function) against
-    the instructions the real xcmp emits for the same `return e` inside a function with locals and formals"""
+    """the extracted model (XConstProp.front, then XCodegenStmt.cproc: prologue, statement code, exit label, epilogue,
+    peepholes) against the instructions the real xcmp emits for the same function / procedure with locals and
+    formals, compared up to a consistent renaming of the labels"""
+    import re
     rng = ck.rng
     d = tempfile.mkdtemp(dir=scr)
     agree = outside = 0
     sample = None
     for i in range(n):
-        e = frag_expr(rng, rng.randint(0, 5), rng.choice(['int', 'int', 'bool']))
-        prog = {'globals': [('var', 'g0'), ('var', 'g1')],
-                'procs': [{'kind': 'func', 'name': 'f', 'formals': [('val', 'p0'), ('val', 'p1')], 'locals': [('var', 'l0'), ('var', 'l1')],
-                           'body': ('seq', [('assign', 'l0', ('num', 3)), ('assign', 'l1', ('num', 4)), ('assign', 'g1', ('num', 9)), ('return', e)])},
+        kind = rng.choice(['func', 'proc'])
+        body = [frag_stmt(rng, rng.randint(0, 3)) for _ in range(rng.randint(1, 4))]
+        if kind == 'func' or rng.random() < 0.3:
+            body.append(('return', frag_expr(rng, rng.randint(0, 4), rng.choice(['int', 'int', 'bool']))))
+        nloc = rng.choice([0, 1, 2, 2, 3])
+        locs = [('var', 'l0'), ('var', 'l1'), ('var', 'l2')][:nloc]
+        if nloc < 2:
+            # l0 / l1 are then globals
+            pass
+        glob = [('val', 'put', ('num', 1)), ('var', 'g0'), ('var', 'g1')] + [('var', 'l%d' % k) for k in range(nloc, 2)]
+        nform = rng.choice([0, 1, 2, 2, 4])
+        forms = [('val', 'p%d' % k) for k in range(nform)]
+        glob += [('var', 'p%d' % k) for k in range(nform, 2)]
+        call = ('call', 'f', [('num', 5 + k) for k in range(nform)])
+        prog = {'globals': glob,
+                'procs': [{'kind': kind, 'name': 'f', 'formals': forms, 'locals': locs, 'body': ('seq', body) if len(body) > 1 or rng.random() < 0.5 else body[0]},
                           {'kind': 'proc', 'name': 'main', 'formals': [], 'locals': [],
-                           'body': ('seq', [('assign', 'g0', ('num', 1)), ('assign', 'g1', ('num', 2)), ('sys', 0, [('call', 'f', [('num', 5), ('num', 6)])])])}]}
+                           'body': ('seq', [('assign', 'g0', ('num', 1)), ('assign', 'g1', ('num', 2)),
+                                            ('sys', 0, [call]) if kind == 'func' else call])}]}
         src = xcommon.to_x(prog)
         open(os.path.join(d, 'f.x'), 'wb').write(src)
         open(os.path.join(d, 'f.sx'), 'w').write(xcommon.to_sx(prog))
         rc, out, err = xcommon._run([tools.xcmp, 'f.x', '-S'], d, timeout=60)
         if rc != 0:
-            ck.broken.append('fragment tie: xcmp -S failed on %r' % src.decode('latin-1'))
+            ck.broken.append('fragment tie: xcmp -S failed on %r: %s' % (src.decode('latin-1'), err[-200:]))
             break
         text = out.decode('latin-1')
         ins = listing_instrs(text)
-        code = size = None
+        code = None
+        size = 0
         try:
-            k = ins.index(('FUNC', 'f'))
-            if ins[k + 1:k + 3] == [('LDBM', 1), ('STAI', 0)] and ins[k + 3][0] == 'LDAC' and ins[k + 4] == ('ADD', None):
+            k = ins.index(('FUNC' if kind == 'func' else 'PROC', 'f'))
+            if ins[k + 1:k + 3] == [('LDBM', 1), ('STAI', 0)] and ins[k + 3][0] == 'LDAC' and ins[k + 4] == ('ADD', None) and ins[k + 5] == ('STAM', 1):
                 size = -ins[k + 3][1]
-            # the marker statement g1 := 9 (a store to a global: no peephole reaches across it)
-            j = next(q for q in range(k, len(ins) - 1) if ins[q] == ('LDAC', 9) and ins[q + 1][0] == 'STAM') - 1
-            end = next(q for q in range(j + 3, len(ins)) if ins[q][0] in ('PROC', 'FUNC') or ins[q][1] == 'PADDING' or str(ins[q][1]).startswith('PADDING'))
-            body = ins[j + 3:end]
-            # the epilogue starts at the function's exit label: the last label of the function
-            lastlab = max(q for q, x in enumerate(body) if x[0] == 'LABEL')
-            code = [x for x in body[:lastlab] if x[0] != '']
+            end = next(q for q in range(k + 1, len(ins)) if ins[q][0] in ('PROC', 'FUNC') or str(ins[q][1]).startswith('PADDING') or ins[q][0] == 'PADDING')
+            code = [x for x in ins[k + 1:end] if x[0] != '']
         except (ValueError, StopIteration):
             pass
-        import re
-        gl = dict((nm, int(a)) for nm, a in re.findall(r'STAM (_lab\d+) \((\d+)\)', text))
-        glob = re.findall(r'STAM _lab\d+ \((\d+)\)', text)
-        pool = re.findall(r'^(?:0x)?[0-9a-fA-F]+\s+(_const\d+)\s', text, re.M)
+        # addresses of the global variables: the DATA words after the stack pointer, in declaration order
+        gnames = [g[1] for g in glob if g[0] == 'var']
+        gmap = ' '.join('%s=%d' % (nm, 2 + q) for q, nm in enumerate(gnames))
         poolmap = []
         lines_ = text.split('\n')
         for q, ln in enumerate(lines_):
@@ -448,19 +484,14 @@ def fragment_tie(ck, tools, scr, n):
                     if v >= (1 << 31):
                         v -= 1 << 32
                     poolmap.append('#%d=%d' % (v, int(m2.group(1), 16) // 4))
-        try:
-            km = ins.index(('PROC', 'main'))
-            glob = [str(x[1]) for x in ins[km:] if x[0] == 'STAM' and x[1] != 1][:2]
-        except ValueError:
-            glob = []
-        if code is None or size is None or len(glob) < 2:
-            ck.broken.append('fragment tie: cannot locate the expression code in the listing of %r' % src.decode('latin-1'))
+        if code is None:
+            ck.broken.append('fragment tie: cannot locate f in the listing of %r' % src.decode('latin-1'))
             break
-        line = 'f size=%d g0=%s g1=%s %s\n' % (size, glob[0], glob[1], ' '.join(poolmap))
+        line = 'f size=%d og=%d %s %s\n' % (size, max(size, 4), gmap, ' '.join(poolmap))
         rc, out, err = xcommon._run([tools.hv, 'xcg', 'f.sx'], d, line.encode(), 60)
         mo = out.decode().strip()
         if rc != 0 or not mo or mo == 'front-error':
-            ck.broken.append('extracted cg failed rc=%d %s %s on %r' % (rc, mo, err[-200:], src.decode('latin-1')))
+            ck.broken.append('extracted model failed rc=%d %s %s on %r' % (rc, mo, err[-200:], src.decode('latin-1')))
             break
         if mo == 'none':
             outside += 1
@@ -468,13 +499,14 @@ def fragment_tie(ck, tools, scr, n):
         want = canon_labels(model_code(mo))
         got = canon_labels(code)
         if want != got:
-            ck.broken.append('model XCodegenExpr.cg differs from the real xcmp on %r: model %r, xcmp %r' % (src.decode('latin-1'), want, got))
+            ck.broken.append('model XCodegenStmt.cproc differs from the real xcmp on %r: model %r, xcmp %r' % (src.decode('latin-1'), want, got))
             if len(ck.broken) > 3:
                 break
         else:
             agree += 1
-            sample = {'x_source': src.decode('latin-1'), 'model_and_xcmp': mo}
-    ck.cov['fragment_model_tie'] = {'expressions': n, 'in_fragment_identical_code': agree, 'outside_fragment': outside}
+            if sample is None or len(src) < len(sample['x_source']):
+                sample = {'x_source': src.decode('latin-1'), 'model_and_xcmp': mo}
+    ck.cov['fragment_model_tie'] = {'procedures': n, 'in_fragment_identical_code': agree, 'outside_fragment': outside}
     if sample:
         ck.sample(sample)
     shutil.rmtree(d, ignore_errors=True)
@@ -521,7 +553,12 @@ def main():
     ck.assumptions = ['well-defined = the extracted XSem.run_fuel says Behaviour with budgets of %d statements and call depth %d for generated programs (XSem.run allows 2000000 and 2000); '
                       'proved: a Behaviour does not change when the recursion fuel grows (run_fuel_monotone); NOT proved, assumed: nor when the statement budget or the depth bound grows' % (STEPS, DEPTH),
                       'order-open evaluation is excluded conservatively by footprints (XSem.v header); ill-defined programs are counted per reason and dropped',
-                      'file streams (>= 256) are not generated; console only']
+                      'file streams (>= 256) are not generated; console only',
+                      'proved part (Properties_C01.v): for expressions (literals, globals, locals, value formals, + - = < ~ and or, spills) and '
+                      'statements (skip stop return if while sequence assignment exit put) of the form the code generator reads (after XConstProp.front), '
+                      'the code of the model cg/cs run on Isa.run shows the behaviour XSem gives (C01_expr_fragment_partial, C01_stmt_fragment_partial); '
+                      'the model is tied to the real xcmp on generated procedures (fragment_model_tie: identical code up to label names, incl. prologue, epilogue and peepholes); '
+                      'NOT proved: calls, get, arrays, strings, the peephole pass, whole-program layout -- decided per program by this check']
     if os.path.exists(os.path.join(vlib.COQ, 'Properties_%s.v' % PID)):
         ok = ck.proofs()
         ck.log('proofs', 'ok' if ok else 'BROKEN')
